@@ -433,7 +433,14 @@ class ExprMixin(CallMixin):
             try:
                 nonzero = fold(right_node) not in (0, 0.0)
             except ValueError:
-                nonzero = False
+                # a named constant (module level, or an attribute of a repository class: `Cls._SECONDS_PER_MINUTE`)
+                from .consteval import try_const
+
+                cls_node = None
+                if getattr(self, "cls", "") and self.mod.has_class(self.cls):
+                    cls_node = self.mod.cls(self.cls)
+                val = try_const(self.mod, right_node, cls_node, None)
+                nonzero = isinstance(val, (int, float)) and not isinstance(val, bool) and val != 0
         self.cells_effects(direct, refl, a, b, node, nonzero_const=nonzero)
         kinds = set()
         for k in (a.kinds or []):
